@@ -422,7 +422,7 @@ theorem checker_error_nodes :
        ("BuiltinNode", "node.Arguments[0]"), ("BuiltinNode", "node.Arguments[1]"),
        ("BuiltinNode", "node.Arguments[0]"), ("BuiltinNode", "node.Arguments[1]"), ("BuiltinNode", "node.Arguments[1]"),
        ("ConditionalNode", "node.Cond")] ∧
-    Gen.Loc.checkerErrorArgs.length = 37 := by
+    Gen.Loc.checkerErrorArgs.length = 38 := by
   decide +kernel
 
 /-- `checker.Check` returns the located first error BEFORE the unlocated `expect` error (since fix
